@@ -76,7 +76,44 @@ CHECKS.update({
                      'differential run against the real function with real libtbb), cbmc. The demos\' --cores handling in main() is outside the claim.'),
 })
 
+CHECKS.update({
+    'C03': dict(cat='model_checking', ref='DESIGN.md §6 C03',
+                text='The six *_tbb entry points compiled against the scheduler shim: every parallel_reduce over a range of length <= lmax evaluates ALL '
+                     'schedules (leaf partitions x run groupings x join orders) side by side in one path and z3 proves they agree on found/weight; '
+                     'parallel_for chunkings/orders and the continuation among distinct results are symbolic choices (budgeted per path); per leaf the '
+                     'C01/C02/C05/C06 obligations. The data-race clause is NOT decided (stated outside the claim).',
+                tech='fork-based symbolic execution with a symbolic TBB scheduler shim; z3 agreement + optimality obligations'),
+    'C04': dict(cat='model_checking', ref='DESIGN.md §6 C04',
+                text='The five MPI entry points compiled against an in-process SPMD simulator (ranks = coroutines, collectives rendezvous, mismatch/missing '
+                     'collective = deadlock) for P in {1,2,3} (thorough 1..5), each rank with its own graph copy whose edge address order is same/reversed/'
+                     'symbolic; per leaf: every rank returns, ranks != 0 emit nothing, rank 0 satisfies validity, ret == sum and single-exchange minimality. '
+                     'Sampled leaf models are re-run on real boost::mpi under mpiexec.',
+                tech='fork-based symbolic execution under an SPMD simulator with symbolic per-rank memory layouts; z3 optimality obligations'),
+    'C07': dict(cat='model_checking', ref='DESIGN.md §6 C07',
+                text='The harnesses of C01-C06, C12-C17 rebuilt with ASan+UBSan (+LeakSanitizer at the end of every path, vector annotations) and explored '
+                     'over reduced case sets: the sanitizer is the per-path monitor, the paths are the solver\'s; approximate results are dereferenced '
+                     'through the caller\'s map after return. Engine-B units (fp<int>, primes<int>, set_global_tbb_concurrency) get CBMC pointer/bounds/'
+                     'signed-overflow/shift checks for all inputs within their bounds.',
+                tech='sanitizer-monitored symbolic exploration (symx) + CBMC memory-safety checks of IR-derived C units'),
+    'C09': dict(cat='model_checking', ref='DESIGN.md §6 C09',
+                text='The sequential exact algorithms instantiated with symx::Rnd, a sound linear over-approximation of binary64 addition (x+y+eps, '
+                     '|eps|<=2^-53(x+y), one eps per operand pair): per leaf z3 proves ret within 1e-9 of the exact sum of its cycles and that no basis is '
+                     'lighter by more than 1e-9 in exact arithmetic. Abstract counterexamples are only reported after a replay on the real double build '
+                     '(property evaluated in exact rational arithmetic); otherwise counted as undecided. mcb_sva_iso_trees is a listed known finding.',
+                tech='symbolic execution under an abstract rounding model in QF_LRA; counterexamples concretised on the real double build'),
+    'C10': dict(cat='model_checking', ref='DESIGN.md §6 C10',
+                text='VALIDATOR clause only: has_loops/has_multiple_edges/has_non_positive_weights on every multigraph on <=3 vertices (loops, multiplicity <=2) '
+                     'with weights symbolic reals of any sign; z3 proves true <=> some weight <= 0. The reader clause is not decided (cbmc gave no verdict on '
+                     'the IR-derived reader unit within budget) and is outside the claim.',
+                tech='fork-based symbolic execution + z3 obligations (validators); reader unit lowered to C but undecided'),
+})
+
 NOT_APPLICABLE = {
+    'C11': 'process-level behaviour of executables (exit status, stdout/stderr, termination under mpiexec) whose main() goes through '
+           'boost::program_options, iostreams, fopen and the MPI runtime: no template parameter reaches main() for symbolic types, the CBMC C++ front end '
+           'cannot parse it, and there is no numeric input for a solver to range over; the library calls the demos make are covered by C01-C06/C10/C20',
+    'C19': 'compile- and link-time property of generated translation units (header self-containment, ODR): no execution, no input and nothing for a '
+           'solver to decide; the deciding tools are the compiler and linker (a different technique family)',
 }
 
 PENDING = 'check not built yet (framework under construction)'
